@@ -196,6 +196,13 @@ class VEPRecord():
                 ref = str(seq.seq[alt_start:alt_end])
                 alt = allele
 
+        # The anchoring above may have moved the record across the transcript
+        # boundary (e.g. cds_start_NF transcripts).
+        if alt_start < tx_start_genetic:
+            raise TranscriptionStartSiteMutationError(tx_id)
+        if alt_end > tx_end_genetic:
+            raise TranscriptionStopSiteMutationError(tx_id)
+
         if len(ref) == len(alt) == 1:
             _type = 'SNV'
         elif len(ref) == 1 or len(ref) == 1:
